@@ -22,9 +22,13 @@ EvKill   == IsEvent("Kill") /\ \E i \in Ids : Kill(i)
 EvClose  == IsEvent("ConnClose") /\ IF w[C] \in {"draining", "failing"} THEN Exit(C) ELSE (w[C] = "gone" /\ UNCHANGED vars)
 EvPin    == IsEvent("ChangePin") /\ ChangePin
 EvCloseB == IsEvent("CloseBegin") /\ Close
-EvCloseE == IsEvent("CloseEnd") /\ (\A i \in Ids : w[i] \in {"unborn", "gone"}) /\ UNCHANGED vars
+\* Close has returned: every process has exited. The token model notices the end of a process (its connection closing)
+\* in a goroutine of its own, possibly a moment later: "everything is gone" is demanded at End, which the harness logs
+\* once it has seen every connection close
+EvCloseE == IsEvent("CloseEnd") /\ closing /\ UNCHANGED vars
+EvEnd    == IsEvent("End") /\ (\A i \in Ids : w[i] \in {"unborn", "gone"}) /\ UNCHANGED vars
 
-TraceNext == EvOpen \/ EvLogin \/ EvSign \/ EvPing \/ EvKill \/ EvClose \/ EvPin \/ EvCloseB \/ EvCloseE
+TraceNext == EvOpen \/ EvLogin \/ EvSign \/ EvPing \/ EvKill \/ EvClose \/ EvPin \/ EvCloseB \/ EvCloseE \/ EvEnd
 TraceSpec == TraceInit /\ [][TraceNext]_tvars
 
 TraceAccepted ==
